@@ -38,6 +38,8 @@ def run(tier, seed, replay=None):
     g = PlanGen(rng)
     n = 70 if tier == "quick" else 1200
     plans = [g.unsized_plan() for _ in range(n)]
+    # a relaxed key parameter in a family with a nested member whose canonical numbers are shifted (seeded change C15g)
+    plans += [g.unsized_shifted_plan() for _ in range(max(6, n // 6))]
     evs = PC.evaluate(so, plans)
     known = {f["id"] for f in C.findings_for(PROP)}
     ok_plans = []
